@@ -18,7 +18,6 @@ def envOfNodes (known pat comments : Node) : Env :=
 def trunc (s : String) (n : Nat) : String := if s.length > n then (s.take n).toString ++ "…" else s
 
 def oracleFor (prop : String) (o : Opts) (env : Env) (inN outN : Node) (diags : List String) : Verdict :=
-  let _ := (o, env, diags)
   if prop == "C02" then
     match oracleC02 o inN outN with
     | .ok => oracleSem prop o env inN outN
@@ -28,6 +27,7 @@ def oracleFor (prop : String) (o : Opts) (env : Env) (inN outN : Node) (diags : 
   else if prop == "C15" then oracleC15 o env inN outN
   else if prop == "C20" then oracleC20 o inN outN
   else if prop == "C09" then oracleC09 o env inN outN
+  else if prop == "C07" then oracleC07 outN diags
   else .skip "no-oracle"
 
 /-- unit lines: `(unit 'fn 'arg 'implResult)` -/
@@ -86,7 +86,9 @@ def runCase (prop : String) (line : String) : String :=
       | some (path, x, y) =>
         s!"{id}\tout-diff\tpath={path}\tmodel={trunc (printNode x) 600}\timpl={trunc (printNode y) 600}{tail}"
       | none =>
-        if mDiags != iDiags then s!"{id}\tdiag-diff\tmodel={mDiags}\timpl={iDiags}{tail}"
+        -- SWC's handler drops a diagnostic identical (message and span) to an earlier one and spans are not
+        -- modelled: diagnostics are compared as duplicate-free sequences
+        if mDiags.eraseDups != iDiags.eraseDups then s!"{id}\tdiag-diff\tmodel={mDiags}\timpl={iDiags}{tail}"
         else s!"{id}\tok{tail}"
   | some _ => "?\tbad-case-shape"
 
